@@ -9,7 +9,9 @@ BUDGET_S = {'quick': 170, 'thorough': 1200}
 BOUNDS = {
     'quick': 'single values depth <= 2 width <= 2; pairs depth <= 1 width <= 2; triples of leaves and width-1 containers; '
              'leaves None / bool / unbounded int / integer-valued float |i| <= 2**53 / specials -0.0 0.5 inf 1e300 2.0**63 / '
-             'string atoms (free, rendering of an int, literals "" "a" "true" "null" non-BMP); dict keys str/int/bool/None/float',
+             'string atoms (free, rendering of an int, literals "" "a" "true" "null" non-BMP); dict keys str/int/bool/None/float '
+             '(symbolic) and, in two families, concrete keys from {0, 1, -1, 2**53+1, True, False, 0.0, 1.0, -0.0, 0.5, inf, '
+             '"true", "1", "1.0", "null"}',
     'thorough': 'single values depth <= 2 width <= 3; pairs depth <= 2 width <= 2; triples depth <= 1 width <= 2',
 }
 ASSUMPTIONS = [
@@ -30,6 +32,7 @@ MID = {'leaf_kinds': ['none', 'bool', 'int', 'float', 'special', 'str'], 'key_ki
        'specials': [-0.0, float('inf')], 'lits': ['true', '']}
 FULL = {}
 DICT2 = {'leaf_kinds': ['int', 'none'], 'key_kinds': ['str', 'int', 'bool'], 'specials': [], 'lits': ['true']}
+CKEYS = {'leaf_kinds': ['int', 'none'], 'key_kinds': ['concrete'], 'specials': [], 'lits': ['true']}
 LIST2 = {'leaf_kinds': ['int', 'bool', 'float', 'str'], 'key_kinds': ['str'], 'specials': [], 'lits': ['true']}
 
 
@@ -44,6 +47,9 @@ def families(tier):
             {'name': 'pair', 'params': {'depth': 1, 'width': 2, 'shape': LIST2, 'containers': ['list', 'tuple']}, 'weight': 3},
             {'name': 'triple', 'params': {'depth': 0, 'width': 0, 'shape': MID}, 'weight': 1},
             {'name': 'triple', 'params': {'depth': 1, 'width': 1, 'shape': DICT2}, 'weight': 2},
+            # dict keys as plain Python values from the colliding classes (True/1/1.0, False/0/-0.0, keyword strings)
+            {'name': 'single', 'params': {'depth': 1, 'width': 2, 'shape': CKEYS, 'containers': ['dict']}, 'weight': 1},
+            {'name': 'pair', 'params': {'depth': 1, 'width': 1, 'shape': CKEYS, 'containers': ['dict']}, 'weight': 1},
         ]
     return [
         {'name': 'single', 'params': {'depth': 2, 'width': 2, 'bad': True, 'shape': MID}, 'weight': 2},
